@@ -240,7 +240,98 @@ def run(facts, rep, scope_files=None, level_walk=True):
                 continue
             if level_walk:
                 n_walk += _level_walk(facts, rep, p, lp, cond, lp["body"], idx - 1, loc)
+    if level_walk:
+        for p in sorted(facts.hir):
+            if scope_files is not None and facts.items[p]["file"] not in scope_files:
+                continue
+            n_walk += _counted_walks(facts, rep, p)
     return n_loops, n_walk
+
+
+LEVEL_ENDS = ("first_context_data", "key_context_data", "last_context_data", "first_parms_id", "key_parms_id", "last_parms_id")
+
+
+def _counted_walks(facts, rep, p):
+    """a level walk written as a counted loop `for _ in chain_index(target)..chain_index(current)`: the hop count must be
+    measured from the walked object's OWN level (the context data of its parms_id, or of the object it was copied from)"""
+    body = facts.hir[p]
+    fors = [x for x in walk(body) if x.get("k") == "For"]
+    if not fors:
+        return 0
+    defs = None
+    n = 0
+    for k, lp in enumerate(fors):
+        it = strip(lp["iter"])
+        for _ in range(3):
+            if it.get("k") == "MCall" and it.get("name") in ("rev", "into_iter"):
+                it = strip(it["recv"])
+        if not (it.get("k") == "Struct" and "ops::Range" in it.get("path", "")):
+            continue
+        d = {f["name"]: f["e"] for f in it["fields"]}
+        if "start" not in d or "end" not in d:
+            continue
+        defs = defs or Defs(body)
+        cl_end = list(defs.closure(d["end"]))
+        cl_start = list(defs.closure(d["start"]))
+        if not any(y.get("k") == "MCall" and y.get("name") == "chain_index" for y in cl_end + cl_start):
+            continue
+        # the walked object: a local handed mutably to a callee that advances its level on every normal path
+        walked = None
+        for x in walk(lp["body"]):
+            f = callee(x)
+            if f is None or x.get("k") not in ("Call", "MCall"):
+                continue
+            args = ([x["recv"]] if x["k"] == "MCall" else []) + x["args"]
+            for ai, a in enumerate(args):
+                rl = root_local(a)
+                if rl and (facts.ty_adj(a).startswith("&mut ") or facts.ty(a).startswith("&mut ")):
+                    tk = target_key(f)
+                    if tk in facts.items and must_advance(facts, tk, ai) is True:
+                        walked = rl
+        if walked is None:
+            continue
+        n += 1
+        rep.fn(p)
+        loc = facts.loc(p, lp)
+        akey = "%s/for#%d/%s/hops" % (p, k, walked[1])
+        own = {walked[0]}
+        for _ in range(3):
+            for x in walk(body):
+                if x.get("k") == "Assign":
+                    rl = root_local(x["lhs"])
+                    src = root_local(x["rhs"])
+                    if rl and src and rl[0] in own:
+                        own.add(src[0])
+                if x.get("k") == "Let" and x["pat"].get("k") == "PBind" and "init" in x and x["pat"]["lid"] in own:
+                    src = root_local(x["init"])
+                    if src:
+                        own.add(src[0])
+
+        def origin(cl):
+            o = {"own": False, "end": None, "param": False}
+            for y in cl:
+                if y.get("k") == "MCall" and y.get("name") == "parms_id":
+                    rl = root_local(y["recv"])
+                    if rl and rl[0] in own:
+                        o["own"] = True
+                if y.get("k") == "MCall" and y.get("name") in LEVEL_ENDS:
+                    o["end"] = y["name"]
+                if y.get("k") == "Path" and y.get("res") == "local" and "ParmsID" in facts.ty(y) and \
+                        _param_index_of(facts, p, y["lid"]) is not None:
+                    o["param"] = True
+            return o
+        hi, lo = origin(cl_end), origin(cl_start)
+        if hi["own"] and not hi["end"] and lo["param"] and not lo["own"]:
+            rep.ok("R-LOOP(adv)", akey, "hop count = chain_index(level of `%s`) - chain_index(requested level)" % walked[1], loc,
+                   sample={"walked": walked[1]})
+        elif hi["end"] and not hi["own"]:
+            rep.violation("R-LOOP(adv)", akey, "the number of level hops applied to `%s` is measured from %s() instead of the "
+                          "object's own level: an object already below that level is moved past the requested level (or off "
+                          "the end of the chain), and an upward request is silently accepted" % (walked[1], hi["end"]), loc)
+        else:
+            rep.unresolved("R-LOOP(adv)", akey, "counted level walk whose bounds are not recognised as chain_index(own level) and "
+                           "chain_index(requested level)", loc)
+    return n
 
 
 def _level_walk(facts, rep, p, lp, cond, lbody, ordinal, loc):
